@@ -986,16 +986,21 @@ func (m *Nitro) StoreToDisk(dir string, snap *Snapshot, concurr int, itmCallback
 		snap = &fakeSnap
 
 		defer func() {
-			if err = m.changeDeltaWrState(dwStateTerminate, nil, nil); err == nil {
+			derr := m.changeDeltaWrState(dwStateTerminate, nil, nil)
+			if derr == nil {
 				bs, _ := json.Marshal(deltaFiles)
-				err = ioutil.WriteFile(filepath.Join(deltadir, "files.json"), bs, 0660)
-				if err == nil {
+				derr = ioutil.WriteFile(filepath.Join(deltadir, "files.json"), bs, 0660)
+				if derr == nil {
 					for id, dwr := range deltaWriters {
 						deltaChecksums[id] = dwr.Checksum()
 					}
 					bs, _ = json.Marshal(deltaChecksums)
-					err = ioutil.WriteFile(filepath.Join(deltadir, "checksums.json"), bs, 0660)
+					derr = ioutil.WriteFile(filepath.Join(deltadir, "checksums.json"), bs, 0660)
 				}
+			}
+			// Do not mask a failure of the main backup
+			if err == nil {
+				err = derr
 			}
 		}()
 	}
